@@ -54,6 +54,18 @@ def cases(draw):
             c = [c[0]] * 3
         scales.append({"size": list(size), "chunk": c})
         size = [ds.ceil_div(s, 2) for s in size]
+    dbits = [draw(st.integers(0, 2)),
+             draw(st.sampled_from([0, 1, 2, 6, 7])),
+             draw(st.integers(0, 2))]
+    if dst_kind == "sharded" and not src_kind.startswith("http") and \
+            draw(st.booleans()):
+        # a destination scale spread over more than 32 (64) shard files, each
+        # holding several chunks: 125..1000 chunks
+        c = draw(st.sampled_from([1, 2]))
+        n = [draw(st.integers(5, 9)) for _ in range(3)]
+        scales = [{"size": [k * c - draw(st.integers(0, c - 1)) for k in n],
+                   "chunk": [c, c, c]}]
+        dbits = [draw(st.integers(0, 1)), draw(st.integers(6, 7)), 0]
     sdt = draw(st.sampled_from(sorted(WIDER)))
     ddt = draw(st.sampled_from(WIDER[sdt]))
     if dst_kind == "copy_info":
@@ -68,9 +80,7 @@ def cases(draw):
             "src_dtype": sdt, "dst_dtype": ddt, "src_enc": senc,
             "dst_enc": denc, "channels": draw(st.integers(1, 2)),
             "bits": [draw(st.integers(0, 2)) for _ in range(3)],
-            "dbits": [draw(st.integers(0, 2)),
-                      draw(st.sampled_from([0, 1, 2, 6, 7])),
-                      draw(st.integers(0, 2))],
+            "dbits": dbits,
             "shard_enc": draw(st.sampled_from(["raw", "gzip"])),
             "block": [draw(st.sampled_from([1, 2, 8])) for _ in range(3)],
             "dblock": [draw(st.sampled_from([1, 2, 4, 8])) for _ in range(3)],
@@ -220,7 +230,20 @@ def run(ctx, n):
                   or case["src_dtype"] != case["dst_dtype"]
                   or ("sharded" in case["src_kind"]) != (
                       case["dst_kind"] == "sharded"))
-        ctx.record(case, len(case["scales"]) >= 2 or change, [
+        extra = []
+        if case["dst_kind"] == "sharded":
+            from vlib.refs import morton
+            s0 = case["scales"][0]
+            grid = [ds.ceil_div(a, b) for a, b in zip(s0["size"],
+                                                      s0["chunk"])]
+            mini, shard, pre = case["dbits"]
+            shards = {morton.route(morton.compressed_morton_code(
+                (x, y, z), grid), pre, mini, shard)[0]
+                for x in range(grid[0]) for y in range(grid[1])
+                for z in range(grid[2])}
+            extra.append("dst_shards>32" if len(shards) > 32
+                         else "dst_shards<=32")
+        ctx.record(case, len(case["scales"]) >= 2 or change, extra + [
             "src." + case["src_kind"], "dst." + case["dst_kind"],
             "%s->%s" % (case["src_enc"][:3], case["dst_enc"][:3]),
             "%s->%s" % (case["src_dtype"], case["dst_dtype"])])
